@@ -343,6 +343,7 @@ func runC01(c *Ctx) {
 	c.R.Notes = append(c.R.Notes, fmt.Sprintf("histories %.1fs", time.Since(t0).Seconds()))
 	c.compareBatch(cases)
 	c.c01ColAttrs()
+	c.c01RowHeights()
 	c.R.Notes = append(c.R.Notes, fmt.Sprintf("+colattrs %.1fs", time.Since(t0).Seconds()))
 	c.c01Payloads()
 	c.R.Notes = append(c.R.Notes, fmt.Sprintf("+payloads %.1fs", time.Since(t0).Seconds()))
@@ -362,5 +363,101 @@ func replayC01(c *Ctx, f Failure) {
 		c.c01ColAttrs()
 		c.c01Payloads()
 		c.c01Fixtures()
+	}
+}
+
+// row heights against the worksheet's own default row height: every combination of a sheet default (none, the
+// built-in 15, a custom 30 with and without the customHeight flag) with explicit heights on rows 1..3 (none, 15, 30,
+// 20.5, 0, 409) and hidden rows; GetRowHeight / GetRowVisible of rows 1..5 and the sheet properties before saving,
+// after save+open and after a second cycle
+func (c *Ctx) c01RowHeights() {
+	type sp struct {
+		Default float64 `json:"default_row_height"`
+		Custom  int     `json:"custom_height"` // 0 unset, 1 false, 2 true
+	}
+	sps := []sp{{0, 0}, {15, 2}, {30, 2}, {30, 1}, {30, 0}, {20.5, 2}}
+	hts := []float64{-1, 15, 30, 20.5, 0, 409}
+	obs := func(f *excelize.File) string {
+		var sb strings.Builder
+		for r := 1; r <= 5; r++ {
+			h, _ := f.GetRowHeight("Sheet1", r)
+			v, _ := f.GetRowVisible("Sheet1", r)
+			fmt.Fprintf(&sb, "row%d:h=%v,vis=%v ", r, h, v)
+		}
+		if p, err := f.GetSheetProps("Sheet1"); err == nil {
+			d, ch := "-", "-"
+			if p.DefaultRowHeight != nil {
+				d = fmt.Sprint(*p.DefaultRowHeight)
+			}
+			if p.CustomHeight != nil {
+				ch = fmt.Sprint(*p.CustomHeight)
+			}
+			fmt.Fprintf(&sb, "default=%s custom=%s", d, ch)
+		}
+		return sb.String()
+	}
+	for si, s := range sps {
+		for i, h1 := range hts {
+			for j, h2 := range hts {
+				if !c.Thorough() && (si+i*7+j)%2 != 0 {
+					continue
+				}
+				desc := map[string]interface{}{"sheet_props": s, "row1_height": h1, "row2_height": h2, "row3_hidden": (i+j)%3 == 0}
+				c.guard("C01_no_panic", desc, func() {
+					f := excelize.NewFile()
+					defer f.Close()
+					if s.Default > 0 || s.Custom > 0 {
+						o := &excelize.SheetPropsOptions{}
+						if s.Default > 0 {
+							d := s.Default
+							o.DefaultRowHeight = &d
+						}
+						if s.Custom > 0 {
+							b := s.Custom == 2
+							o.CustomHeight = &b
+						}
+						if err := f.SetSheetProps("Sheet1", o); err != nil {
+							return
+						}
+					}
+					f.SetCellValue("Sheet1", "A1", 1)
+					f.SetCellValue("Sheet1", "B4", "x")
+					if h1 >= 0 {
+						f.SetRowHeight("Sheet1", 1, h1)
+					}
+					if h2 >= 0 {
+						f.SetRowHeight("Sheet1", 2, h2)
+					}
+					if (i+j)%3 == 0 {
+						f.SetRowVisible("Sheet1", 3, false)
+					}
+					c.Count("row-heights", h1 >= 0 || h2 >= 0, fmt.Sprint(desc))
+					o0 := obs(f)
+					g, err := reopen(f)
+					if err != nil {
+						c.Fail("oracle", "C01_roundtrip", desc, "save/open failed: "+err.Error(), "")
+						return
+					}
+					defer g.Close()
+					o1 := obs(g)
+					if o0 != o1 {
+						c.Fail("oracle", "C01_row_attrs", desc, fmt.Sprintf("row heights changed by save+open: %s  ->  %s", o0, o1), "")
+						return
+					}
+					g2, err := reopen(g)
+					if err != nil {
+						c.Fail("oracle", "C01_roundtrip", desc, "second save/open failed: "+err.Error(), "")
+						return
+					}
+					defer g2.Close()
+					if o2 := obs(g2); o2 != o1 {
+						c.Fail("oracle", "C01_fixpoint", desc, fmt.Sprintf("row heights changed by the second save+open: %s  ->  %s", o1, o2), "")
+					}
+				})
+				if len(c.R.Failures) >= 3 {
+					return
+				}
+			}
+		}
 	}
 }
